@@ -51,8 +51,10 @@ type immRun struct {
 	nodes     int64 // operations executed (= DFS nodes)
 	reads     int64 // version re-reads
 	fullReads int64
-	stacks    map[uint64]struct{}
-	hash      []uint64
+	canon     []bool
+	distinct  int64
+	noMemo    bool
+	broken    bool // a retained version was found damaged
 	fails     map[string]*immFail
 	maxSeen   int
 	samples   [][]string
@@ -65,9 +67,9 @@ type immRun struct {
 
 func newImmRun(seed int64, depth int) *immRun {
 	rand.Seed(seed)
-	r := &immRun{stack: make([]version, 0, depth+2), seed: seed, shadow: rand.New(rand.NewSource(seed)), depth: depth, stacks: map[uint64]struct{}{}, fails: map[string]*immFail{}}
+	r := &immRun{stack: make([]version, 0, depth+2), seed: seed, shadow: rand.New(rand.NewSource(seed)), depth: depth, fails: map[string]*immFail{}}
 	r.push(database.VerifNewTreapImmutable(), emptyModel(), [4]int{-1, -1, -1, -1})
-	r.hash = append(r.hash, 1469598103934665603)
+	r.canon = append(r.canon, true)
 	return r
 }
 
@@ -107,12 +109,15 @@ func (r *immRun) skipTo(p int64) {
 	}
 }
 
-func modelCode(m model) uint64 {
-	var c uint64
-	for _, v := range m {
-		c = c*3 + uint64(v+1)
+// firstNoop returns the first operation (in alphabet order) that leaves m unchanged.
+func (r *immRun) firstNoop(m model) string {
+	for _, op := range allOps {
+		put, k, v := parseOp(op)
+		if (put && m[k] == v) || (!put && m[k] < 0) {
+			return op
+		}
 	}
-	return c
+	return ""
 }
 
 // step applies op to the newest version, pushes the result and evaluates every oracle class.
@@ -143,24 +148,27 @@ func (r *immRun) step(op string) *failures {
 		}
 	}
 	r.push(nt, m, prio)
-	h := r.hash[len(r.hash)-1]
-	h = (h ^ (modelCode(m) + 1)) * 1099511628211
-	r.hash = append(r.hash, h)
-	r.stacks[h] = struct{}{}
+	// distinct version stacks: operations that change nothing all produce the same stack of
+	// contents as their first such sibling; a stack is counted through its canonical path only
+	changed := m != top.m
+	canon := r.canon[len(r.canon)-1] && (changed || op == r.firstNoop(top.m))
+	r.canon = append(r.canon, canon)
+	if canon {
+		r.distinct++
+	}
 	if !ok {
 		f.add("priority-stream", "marker not found in the shadow priority stream")
 		return f
 	}
 
 	// newest version: full read
-	r.ctx = r.ctx[:0]
-	r.ctx = append(append(r.ctx, "new version after "...), op...)
 	nf := len(f.list)
-	if fullReadNeeded(1, opIndex(op), m, prio) {
+	nv := &r.stack[len(r.stack)-1]
+	if r.noMemo || fullReadNeeded(1, opIndex(op), m, prio) {
 		r.fullReads++
-		readFull(nt, m, f, string(r.ctx))
-	} else if c := readBasic(nt, m, &r.stack[len(r.stack)-1].it); c != "" {
-		f.add(c, "%s: treap disagrees with the sorted-map model %v (%s)", r.ctx, m, c)
+		readFull(nt, m, f, "new version after "+op)
+	} else if c := readLean(nt, m, nv.e[:nv.n], &nv.it, int(r.nodes)); c != "" {
+		f.add(c, "new version after %s: treap disagrees with the sorted-map model %v (%s)", op, m, c)
 	}
 	for i := nf; i < len(f.list); i++ {
 		f.list[i][0] = "new-version|" + f.list[i][0]
@@ -171,7 +179,7 @@ func (r *immRun) step(op string) *failures {
 		ver := &r.stack[i]
 		r.reads++
 		if !oldRead {
-			if c := readBasic(ver.t, ver.m, &ver.it); c != "" {
+			if c := readLean(ver.t, ver.m, ver.e[:ver.n], &ver.it, int(r.nodes)+i); c != "" {
 				oldRead = true
 				f.add("old-version|"+c, "after %s (%d updates later) retained version %d no longer answers as recorded %v (%s)", op, len(r.stack)-1-i, i, ver.m, c)
 			}
@@ -225,7 +233,7 @@ func (r *immRun) dfs() {
 	if r.stop != nil && r.nodes&0xfff == 0 && r.stop() {
 		r.capped = true
 	}
-	if r.capped {
+	if r.capped || r.broken {
 		return
 	}
 	// mid-traversal iterator states to restore after each child
@@ -250,13 +258,18 @@ func (r *immRun) dfs() {
 			if x[0] == "priority-stream" || strings.HasPrefix(x[0], "new-version|contents|") {
 				diverged = true // model and implementation disagree on the contents: do not go deeper
 			}
+			if strings.HasPrefix(x[0], "old-version|") {
+				// a retained version has been damaged: the versions on the DFS stack can no longer
+				// be trusted, this shard stops here (reported, exhaustive=false)
+				r.broken = true
+			}
 		}
-		if !diverged {
+		if !diverged && !r.broken {
 			r.dfs()
 		}
 		// pop
 		r.stack = r.stack[:len(r.stack)-1]
-		r.hash = r.hash[:len(r.hash)-1]
+		r.canon = r.canon[:len(r.canon)-1]
 		r.ops = r.ops[:len(r.ops)-1]
 		r.opPos = r.opPos[:len(r.opPos)-1]
 		for i := range r.stack {
@@ -273,6 +286,7 @@ func (r *immRun) dfs() {
 // their own shorter paths).
 func replayPath(seed int64, ops []string, pos []int64) map[string]string {
 	r := newImmRun(seed, len(ops))
+	r.noMemo = true
 	out := map[string]string{}
 	for i, op := range ops {
 		if i < len(pos) {
